@@ -36,9 +36,9 @@ ENGINES = {
 }
 PROPS = {
     "C16": dict(
-        engines=["reload"], props_file="Props/C16.v", checkers=["Oracles/CoreC16.v"],
-        checker_fns={"reload": "Oracles.CoreC16:c16_check_all"},
-        coq_scan=["Core/Reload.v", "Core/ReloadSpec.v", "Core/ReloadProofs.v", "Core/ReloadProofs2.v", "Core/Obs.v", "Oracles/CoreC16.v", "Props/C16.v", "Base"],
+        engines=["reload"], props_file="Props/C16.v", checkers=["Oracles/CoreC16.v", "Oracles/CoreC16Progress.v"],
+        checker_fns={"reload": "Oracles.CoreC16Progress:c16_all_check"},
+        coq_scan=["Core/Reload.v", "Core/ReloadSpec.v", "Core/ReloadProofs.v", "Core/ReloadProofs2.v", "Core/Obs.v", "Oracles/CoreC16.v", "Oracles/CoreC16Progress.v", "Props/C16.v", "Base"],
         level="proof",
         assumptions=[
             "queue trees are well formed (tree_okb): one child per name, only the root has no parent, queue states are Active/Draining/Stopped",
